@@ -66,7 +66,7 @@ Inductive fskind := FExec (script : list act) | FFile | FDir | FNoExec | FUnread
 
 Inductive callid :=
 | CPipe | CGetfd | CSetfd | CGetfl | CSetfl | CClose | CRead | CWrite | CPoll | COpen
-| CFileno | CDup2 | CFork | CExecvp | CExit | CWaitpid | CKill | CChdir | CGetcwd
+| CFileno | CDup2 | CDupfd | CFork | CExecvp | CExit | CWaitpid | CKill | CChdir | CGetcwd
 | CGetrlimit | CSigfillset | CSigemptyset | CSigaction | CSigmask | CClock
 | CMalloc | CCalloc | CRealloc | CFree | CStrdup.
 
